@@ -230,7 +230,7 @@ def corr_class_bodies(ctx, corr):
                 msg = "model decodes the class body but the implementation rejects it"
             elif r[0] == 'ok' and r[1] != m[1]:
                 msg = "model %s; implementation %s" % (m[1], r[1])
-        elif m[0] == 'err' and m[1] in (1, 2, 3) and r[0] == 'ok':
+        elif m[0] == 'err' and m[1] in (1, 2, 3) and r[0] == 'ok' and not decl.final_as_name(toks):
             msg = "model rejects (code %d) but the implementation reports %s" % (m[1], r[1])
         elif m[0] == 'err' and m[1] == 9 and r[0] == 'ok':
             msg = "model ran out of fuel"
@@ -412,7 +412,7 @@ def corr_ns_bodies(ctx, corr):
                 msg = "model decodes the declaration sequence but the implementation rejects it"
             elif r[0] == 'ok' and r[1] != m[1]:
                 msg = "model %s; implementation %s" % (m[1], r[1])
-        elif m[0] == 'err' and m[1] in (1, 2, 3) and r[0] == 'ok':
+        elif m[0] == 'err' and m[1] in (1, 2, 3) and r[0] == 'ok' and not decl.final_as_name(toks):
             msg = "model rejects (code %d) but the implementation reports %s" % (m[1], r[1])
         elif m[0] == 'err' and m[1] == 9 and r[0] == 'ok':
             msg = "model ran out of fuel"
